@@ -291,6 +291,26 @@ def run(ctx):
     out.corr_errors = errs
     for i in bad[:10]:
         out.disagreements.append({'case': metas[i], 'obligation': 'rename_equiv_case rejected the two emitted systems'})
+        # failing-input search on exactly this pair
+        m_ = metas[i]
+        try:
+            if m_['kind'] == 'rename':
+                case_, p2_, map_, skip_ = rename_case(m_['prog'], m_['codes'])
+                why = solve_pair_oracle(m_['prog'], p2_, map_, skip_)
+                if why:
+                    out.failures.append({'key': 'rename:series-differ', 'what': 'renaming codes %r changes the result: %s' % (m_['codes'], why),
+                                         'replay': {'kind': 'rename', 'prog': m_['prog'], 'codes': m_['codes']}})
+            else:
+                a_ = GC.analyse(m_['single'])
+                ts1, _, _ = GC.solve(m_['single'])
+                tsj, _, _ = GC.solve(m_['joint'])
+                if ts1 is not None and tsj is not None:
+                    why = series_equal_under(ts1, tsj, embed_map(a_, m_['country']), set(['t', 'k']))
+                    if why:
+                        out.failures.append({'key': 'embed:series-differ', 'what': 'economy %s differs when embedded: %s' % (m_['country'], why),
+                                             'replay': {'kind': 'embed', 'singles': [m_['single']], 'joint': m_['joint'], 'codes': [m_['country']]}})
+        except Exception as e:  # noqa
+            out.notes.append('failing-input search on a rejected pair raised %r' % (e,))
     out.evaluations = len(cases)
     out.nontrivial = len(seen)
     out.samples = [{'kind': metas[0]['kind'], 'codes': metas[0].get('codes')}, {'kind': metas[-1]['kind'], 'country': metas[-1].get('country')}] if metas else []
